@@ -364,6 +364,18 @@ class SymStr:
     def span(self):
         return (self.lo, self.hi)
 
+    def __getattr__(self, name):
+        # any other str method: realise the characters (fork per value) and delegate
+        if name.startswith("__"):
+            raise AttributeError(name)
+        return getattr(self.realise(), name)
+
+    def __iter__(self):
+        return iter(self.chars[self.lo : self.hi])
+
+    def __contains__(self, o):
+        return o in self.realise()
+
 
 def ref_lex(code):
     """reference lexer, written from the documented token rules.  Works on str or SymStr
